@@ -86,6 +86,16 @@ func c03Scenarios(tier string) []*Scenario {
 			add(tr, "", RPC{Kind: "unary", Client: []string{"I"}, Handler: h})
 			add(tr, "cancel", RPC{Kind: "unary", Client: []string{"I"}, Handler: h})
 		}
+		// the context ending while the response is decoded / copied: a call that reports success has its metadata
+		for _, h := range [][]string{{"dec", "h:a", "t:c", "ret:ok"}, {"dec", "H:b", "t:c", "ret:ok"}} {
+			add(tr, "cancel", RPC{Kind: "unary", Client: []string{"I"}, Handler: h})
+			sc := out[len(out)-1]
+			sc.Opts = "codec"
+			sc.Name += "|codec"
+			if tr == "inproc" {
+				sc.Cloner = "yield"
+			}
+		}
 		// a goroutine the handler left behind sets headers after the handler returned, while the client has
 		// not yet taken the final frames: refused, or else delivered
 		if tr == "inproc" {
